@@ -27,15 +27,17 @@ C11_STREAMS = [
 # (32-bit usize/isize/pointers, as on wasm32; no wasm32 std can be built offline here) with release semantics,
 # compared line by line with the native x86-64 release build of the same driver and arguments.
 # n per (body): sized for ~2-4 minutes of interpretation per process (Miri runs ~10-40 events/s).
-PTR32_N = {"arith": 6, "rem": 10, "round": 40, "convi": 4, "xtype": 8, "flt": 3, "parse": 3, "fmt": 3, "codec": 1, "wrap": 5, "trans": 4}
+PTR32_N = {"arith": 4, "rem": 14, "round": 40, "convi": 3, "xtype": 8, "flt": 2, "parse": 3, "fmt": 5, "codec": 1, "wrap": 3, "trans": 5}
 PTR32_ONLY = {"codec": "i8.0,u8.8,i16.8,u32.31,i64.32,u64.64,i128.0,u128.127,i128.128,i32.0,u16.0,i128.64"}
+PTR32_MAX_PAIRS = 1200   # per process: ~1-3 minutes of interpretation
+PTR32_MAX_BY_BODY = {"parse": 600, "fmt": 700, "trans": 700}
 MIRI_TARGET = "i686-unknown-linux-gnu"
 MIRI_DIR = os.path.join(ROOT, "harness", "target-miri32")
 
 
 def miri32_cmd(b, args):
     return {"argv": ["cargo", "+nightly", "miri", "run", "--release", "--target", MIRI_TARGET, "--target-dir", MIRI_DIR, "--bin", b, "--"] + args,
-            "cwd": os.path.join(ROOT, "harness"), "env": {"MIRIFLAGS": "-Zmiri-disable-isolation", "CARGO_NET_OFFLINE": "true"}}
+            "cwd": os.path.join(ROOT, "harness"), "env": {"MIRIFLAGS": "-Zmiri-disable-isolation -Zmiri-address-reuse-rate=1.0", "CARGO_NET_OFFLINE": "true"}}
 
 
 RULE = ("one evaluation = one aligned pair of event lines: the same driver binary built with (debug-assertions + overflow-checks on) and "
@@ -75,9 +77,11 @@ def plan(prop, tier, seed):
                         args += ["--only", PTR32_ONLY[body]]
                     gen = None
                     if st.get("gen"):
-                        gen = [PY, st["gen"], "--seed", str(seed), "--n", str(n), "--chunk", b.split("_", 1)[1], "--shard", "0/1"]
+                        # the stdin-driven driver reads its whole input first: cut the literal stream to the budget up front
+                        gen = ["bash", "-c", "%s %s --seed %d --n %d --chunk %s --shard %d/9 2>/dev/null | head -n %d" % (
+                            PY, st["gen"], seed, n, b.split("_", 1)[1], (seed + len(js)) % 9, PTR32_MAX_BY_BODY.get(body, PTR32_MAX_PAIRS))]
                     mon = [PY, DIFF, json.dumps(miri32_cmd(b, args)), json.dumps([bin_path("release", b)] + args), json.dumps(gen),
-                           json.dumps({"mode": "ptr32"})]
+                           json.dumps({"mode": "ptr32", "max_pairs": PTR32_MAX_BY_BODY.get(body, PTR32_MAX_PAIRS)})]
                     js.append(dict(kind="mon", body=body, label="ptr32", mon=mon, timeout=3 * 3600))
         return js
 
